@@ -1,4 +1,5 @@
 import BigtoolsModel.SummaryFold
+import BigtoolsModel.BedSummary
 import BigtoolsModel.SweepProof
 import BigtoolsModel.SweepStats
 /-! # C06 — whole-file summary statistics equal the statistics of the written data
@@ -75,3 +76,17 @@ theorem C06_zero_length_piece_pollutes_max :
   phantom_pollutes_max
 
 end SW
+
+namespace BSUM
+
+/-- bigBed, across chromosomes: merging two chromosomes' summaries = the summary of all their emitted segments
+    (a chromosome covering nothing contributes nothing; zero-length pieces are ignored). -/
+theorem C06_bed_cross_chromosome_merge (a b : List SW.Seg) : merge (ofSegs a) (ofSegs b) = ofSegs (a ++ b) :=
+  merge_ofSegs a b
+
+/-- … for any number of chromosomes -/
+theorem C06_bed_total_summary_over_all_chromosomes (c : List SW.Seg) (cs : List (List SW.Seg)) :
+    (cs.map ofSegs).foldl merge (ofSegs c) = ofSegs (c ++ cs.flatten) :=
+  mergeAll_ofSegs c cs
+
+end BSUM
